@@ -46,3 +46,30 @@ Example C01_example :
   check_c01 bpx 6 [DIn (Some a) 1%positive; DSig (EBin Add (EBin Mul (EVar 0) (EInt 3)) (EInt 2))]
             [{| q_decl := 1; q_rn := 3; q_gn := 0; q_csig := a |}] = Some 3%nat.
 Proof. vm_compute. reflexivity. Qed.
+
+(* the net ids of a blueprint term are the connected components of the blueprint's wires, and every
+   entity of the term carries the ids of its own connectors: the exporter's union-find is not trusted *)
+From FV Require Import Factorio.Nets.
+Theorem C01_nets_are_wire_components : forall b nums wr wg mr mg cr cg rr rg,
+  bp_nets_ok b nums wr wg mr mg cr cg rr rg = true ->
+  (forall a c, (id_of mr a = id_of mr c /\ id_of mr a <> 0%N -> connected wr a c) /\
+               (connected wr a c -> id_of mr a = id_of mr c)) /\
+  (forall a c, (id_of mg a = id_of mg c /\ id_of mg a <> 0%N -> connected wg a c) /\
+               (connected wg a c -> id_of mg a = id_of mg c)) /\
+  (forall i e, nth_error (b_ents b) i = Some e ->
+     exists num, nth_error nums i = Some num /\ ent_ids_ok mr mg num e = true).
+Proof. exact bp_nets_ok_sound. Qed.
+Print Assumptions C01_nets_are_wire_components.
+
+Example C01_nets_example :
+  nets_ok [((1,3),(2,1)); ((2,1),(3,1))]%N [((1,3),1); ((2,1),1); ((3,1),1)]%N
+          [ {| cr_c := (1,3)%N; cr_parent := (1,3)%N; cr_depth := 0 |};
+            {| cr_c := (2,1)%N; cr_parent := (1,3)%N; cr_depth := 1 |};
+            {| cr_c := (3,1)%N; cr_parent := (2,1)%N; cr_depth := 2 |} ]
+          [(1, (1,3))]%N = true
+  /\ nets_ok [((1,3),(2,1))]%N [((1,3),1); ((2,1),1); ((3,1),1)]%N
+          [ {| cr_c := (1,3)%N; cr_parent := (1,3)%N; cr_depth := 0 |};
+            {| cr_c := (2,1)%N; cr_parent := (1,3)%N; cr_depth := 1 |};
+            {| cr_c := (3,1)%N; cr_parent := (2,1)%N; cr_depth := 2 |} ]
+          [(1, (1,3))]%N = false.
+Proof. split; vm_compute; reflexivity. Qed.
